@@ -3,6 +3,7 @@ pub mod ars;
 pub mod catalogue;
 pub mod gen_circuit;
 pub mod logged_hash;
+pub mod plonk_util;
 pub mod ref_eval;
 pub mod relations;
 pub mod totality;
